@@ -111,7 +111,17 @@ func runC05(c *Ctx) {
 		}
 	}
 	accNonEmpty := plainEdges(edgesMatching(b, "bin<>=>(len(p0), 1)", "bin<>>(len(p0), 0)"))
-	accCase := plainEdges(edgesMatching(b, "bin<==>(call<*>(p0), nil)"))
+	// the case routine is Decode's (decided under C04); Encode must pass *that* routine on hrp, directly or inside a
+	// validation helper whose successful exits all passed it
+	var caseFn *ssa.Function
+	caseUniq := false
+	if dec := c.P.Func("pkg/bech32", "Decode"); dec != nil {
+		caseFn, caseUniq = uniqueCallee(edgesMatching(ana.NewBuilder(c.P, dec), "bin<==>(call<*>(p0), nil)"))
+	}
+	var accCase []ana.Edge
+	if caseFn != nil {
+		accCase = plainEdges(edgesMatching(b, "bin<==>(call<"+caseFn.String()+">(p0), nil)"))
+	}
 	// the HRP loop in Encode, or in a first-violation scanner Encode tests against "none found"
 	hrpGate := scanGates(c, b, func(b2 *ana.Builder, l *rangeLoop) bool {
 		if !l.Coll.IsParam(0) {
@@ -142,36 +152,45 @@ func runC05(c *Ctx) {
 		r.Check(mustPass(fn, blk, hrpGate), "C05.exits.gate.hrp-chars", c.ipos(e.Instr), "success follows a loop over hrp that continues only for runes in 33..126")
 	}
 	// the case gate helper is the same validateCase as Decode's (decided under C04)
-	if dec := c.P.Func("pkg/bech32", "Decode"); dec != nil {
-		db := ana.NewBuilder(c.P, dec)
-		a, ua := uniqueCallee(edgesMatching(db, "bin<==>(call<*>(p0), nil)"))
-		bb, ub := uniqueCallee(edgesMatching(b, "bin<==>(call<*>(p0), nil)"))
-		r.Check(a != nil && a == bb && ua && ub, "C05.exits.case-sibling", c.P.Pos(fn.Pos()), "Encode and Decode use the same case validation routine")
-	}
+	r.Check(caseFn != nil && caseUniq && len(accCase) > 0, "C05.exits.case-sibling", c.P.Pos(fn.Pos()), "Encode and Decode use the same case validation routine")
 
 	// ---- value terms
-	D0 := "obj(makeslice<[]uint8>(bin<+>(" + el + ", 6), bin<+>(" + el + ", 6)), call<repo/pkg/bech32/internal/base32.Encode>(self, p1))"
-	D := "obj(makeslice<[]uint8>(bin<+>(" + el + ", 6), bin<+>(" + el + ", 6)), call<repo/pkg/bech32/internal/base32.Encode>(self, p1), call<builtin.copy>(slice(self, " + el + ", none), call<*>(call<strings.ToLower>(p0), slice(" + D0 + ", 0, " + el + "))))"
+	D0 := "obj(makeslice<[]uint8>(bin<+>(" + el + ", 6), bin<+>(" + el + ", 6)), call<repo/pkg/bech32/internal/base32.Encode>(alt(self, slice(self, 0, " + el + ")), p1))"
+	D := "obj(makeslice<[]uint8>(bin<+>(" + el + ", 6), bin<+>(" + el + ", 6)), call<repo/pkg/bech32/internal/base32.Encode>(alt(self, slice(self, 0, " + el + ")), p1), call<builtin.copy>(slice(self, " + el + ", none), call<*>(call<strings.ToLower>(p0), slice(" + D0 + ", 0, " + el + "))))"
 	lowerStr := "call<(*strings.Builder).String>(obj(alloc<strings.Builder>, call<(*strings.Builder).WriteString>(self, p0), call<(*strings.Builder).WriteByte>(self, 49), call<(*strings.Builder).WriteString>(self, call<*>(load(global<repo/pkg/bech32.charset>), " + D + "))))"
 	sameCase := plainEdges(edgesMatching(b, "bin<==>(p0, call<strings.ToLower>(p0))", "bin<==>(call<strings.ToLower>(p0), p0)"))
 	otherCase := plainEdges(edgesMatching(b, "bin<!=>(p0, call<strings.ToLower>(p0))", "bin<!=>(call<strings.ToLower>(p0), p0)"))
 	nLower, nUpper := 0, 0
 	var encodeFn, createFn *ssa.Function
-	for _, e := range succ {
-		t := b.Of(e.Results[0], e.Instr)
+	// each way the returned string is selected (a return of its own, or one input of a merged result variable)
+	under := func(rc ana.ReturnCase, gate []ana.Edge) bool {
+		if rc.To != nil {
+			return edgeMustPass(fn, ana.Edge{From: rc.Block, To: rc.To}, gate)
+		}
+		return mustPass(fn, rc.Block, gate)
+	}
+	for _, rc := range ana.ReturnCases(fn, 0) {
+		if !b.Of(rc.Ret.Results[1], rc.Ret).Is("nil") && rc.To == nil {
+			continue // an error return
+		}
+		t := b.Of(rc.Val, rc.Ret)
+		if t.String() == `""` {
+			continue // the empty string of an error path merged into the result variable
+		}
+		pos := c.ipos(rc.Ret)
 		if _, ok := ana.Match(lowerStr, t); ok {
 			nLower++
-			r.Check(mustPass(fn, e.Instr.Block(), sameCase), "C05.checksum-flow.lower-iff", c.ipos(e.Instr), "the string is returned as built only when hrp == ToLower(hrp)")
+			r.Check(under(rc, sameCase), "C05.checksum-flow.lower-iff", pos, "the string is returned as built only when hrp == ToLower(hrp)")
 			encodeFn = c.calleeMatching("call<*>(load(global<repo/pkg/bech32.charset>), _)", t)
 			createFn = c.calleeMatching("call<*>(call<strings.ToLower>(p0), slice(_, 0, _))", t)
 			continue
 		}
 		if _, ok := ana.Match("call<strings.ToUpper>("+lowerStr+")", t); ok {
 			nUpper++
-			r.Check(mustPass(fn, e.Instr.Block(), otherCase), "C05.checksum-flow.upper-iff", c.ipos(e.Instr), "the whole string is upper-cased only when hrp != ToLower(hrp)")
+			r.Check(under(rc, otherCase), "C05.checksum-flow.upper-iff", pos, "the whole string is upper-cased only when hrp != ToLower(hrp)")
 			continue
 		}
-		r.Viol("C05.checksum-flow.term", c.ipos(e.Instr), "returned string is not hrp ‖ 1 ‖ charset.encode(regroup(src) ‖ checksum(ToLower(hrp), regroup(src))): %s", ana.Explain(lowerStr, t))
+		r.Viol("C05.checksum-flow.term", pos, "returned string is not hrp ‖ 1 ‖ charset.encode(regroup(src) ‖ checksum(ToLower(hrp), regroup(src))): %s", ana.Explain(lowerStr, t))
 	}
 	r.Check(nLower == 1 && nUpper == 1, "C05.checksum-flow.term", c.P.Pos(fn.Pos()), "two success forms: the built string and its upper-casing (found %d/%d)", nLower, nUpper)
 
